@@ -26,7 +26,8 @@ let unit_ok (u : string) : bool = let o = ostr u in o = "" || o = "none" || isSI
 exception Refuse of ostring
 
 type slot = { kind : char; parent : int; name : ostring; mutable bound : bool; mutable oid : int;
-              mutable lost : bool (* re-identified, noticed at the last liveness refresh: dead for the implementation driver *) }
+              mutable lost : bool; (* re-identified, noticed at the last liveness refresh: dead for the implementation driver *)
+              mutable linked : bool (* some link may have pointed to it at some time *) }
 type world = { mutable st : db; beh : behaviour; mutable tbl : slot array; mutable n : int;
                ord_of_oid : (int, int) OHashtbl.t; mutable last_dump : ostring }
 
@@ -86,7 +87,9 @@ let arg w k kind : harg =
     if not s.bound then HNone else begin
       if not (slot_alive w s) then begin
         let p = s.parent in
-        if p >= 0 && not (is_live w p) then raise (Refuse "driver::orphan")
+        if p >= 0 && not (is_live w p) then raise (Refuse "driver::orphan");
+        (* a deleted entity that a deleted holder may still link to keeps a valid handle in the implementation *)
+        if s.linked then raise (Refuse "driver::zombie")
       end;
       HEnt (nat_of_int s.oid)
     end
@@ -260,9 +263,11 @@ let chk_spec w (ptok : ostring) (kc : char) : ostring =
     if s.bound && not (slot_alive w s) && s.kind = kc && s.parent = pk then begin
       (* the id of a deleted member matches nothing — unless a live member is NAMED like that id (a legal name) *)
       let id = ostr (ids (nat_of_int s.oid)) in
+      (* has by the stale handle: 0 — not asked ("!") when the drivers refuse the handle as possibly zombie-held *)
+      let hh = if s.linked then "!" else "0" in
       match OLst.find_opt (fun e -> ostr (e_name e) = id) (children w.st p k) with
-      | Some x -> gone := (ostring_of_int j ^ ":1:" ^ ord_of w (e_oid x) ^ ":0") :: !gone
-      | None -> gone := (ostring_of_int j ^ ":0:-:0") :: !gone
+      | Some x -> gone := (ostring_of_int j ^ ":1:" ^ ord_of w (e_oid x) ^ ":" ^ hh) :: !gone
+      | None -> gone := (ostring_of_int j ^ ":0:-:" ^ hh) :: !gone
     end
   done;
   "cnt=" ^ ostring_of_int (OLst.length l) ^ " idx=" ^ ll ^ (if named then " byname=" ^ ll else "") ^ " byid=" ^ ll ^
@@ -335,7 +340,7 @@ let do_mk w toks : ostring =
     let kc = kt.[0] in
     (* the slot exists from now on, bound or not *)
     let pk = if ptok = "F" then -1 else oint_of_string ptok in
-    w.tbl <- Array.append w.tbl [| { kind = kc; parent = pk; name = ""; bound = false; oid = -1; lost = false } |];
+    w.tbl <- Array.append w.tbl [| { kind = kc; parent = pk; name = ""; bound = false; oid = -1; lost = false; linked = false } |];
     w.n <- k + 1;
     let nm_c = dec_sarg w name in
     w.tbl.(k) <- { (w.tbl.(k)) with name = ostr nm_c };
@@ -457,6 +462,25 @@ let answer w toks : ostring =
   | ["uuid"; s] -> "OK " ^ bool01 (looksLikeUUID (cstr (dec_str s)))
   | _ ->
     let head = (try do_line w toks with Refuse what -> "ERR " ^ what | ModelUB u -> "UB " ^ u) in
+    (* bookkeeping of possible link targets, as in harness/hist_common.hpp *)
+    let is_ok = OStr.length head >= 2 && OStr.sub head 0 2 = "OK" in
+    let mark_ref r = let k = dec_ref r in if k >= 0 && k < w.n then w.tbl.(k).linked <- true in
+    let mark_str t = (try
+        let v = ostr (dec_sarg w t) in
+        for j = 0 to w.n - 1 do
+          let sl = w.tbl.(j) in
+          if sl.bound && (ostr (ids (nat_of_int sl.oid)) = v || sl.name = v) then sl.linked <- true
+        done with _ -> ()) in
+    (if is_ok then match toks with
+      | ("ladd" :: _ :: _ :: r :: _) -> mark_ref r
+      | (("setmeta" | "setlink" | "setpos" | "setext" | "setdata") :: _ :: r :: _) -> mark_ref r
+      | ("ladds" :: _ :: _ :: t :: _) -> mark_str t
+      | (("setmetas" | "setlinks" | "setposs" | "setexts" | "setdatas") :: _ :: t :: _) -> mark_str t
+      | ("lset" :: _ :: _ :: n :: refs) -> OLst.iter mark_ref (ntake refs (oint_of_string n))
+      | ("mk" :: _ :: "M" :: _ :: _ :: r :: _) -> mark_ref r
+      | ("mk" :: _ :: "X" :: _ :: _ :: "h" :: r :: _) -> mark_ref r
+      | ("mk" :: _ :: "X" :: _ :: _ :: "s" :: t :: _) -> mark_str t
+      | _ -> ());
     (* the implementation driver recomputes liveness (by id) after every successful delete *)
     (match toks with
      | ("del" | "delh") :: _ when head = "OK 1" ->
